@@ -46,7 +46,7 @@ names = sorted(n for n in os.listdir(os.path.join(VERIF, "seeded")) if os.path.i
 flt = [a for a in sys.argv[1:] if not a.startswith("-")]
 if flt:
     names = [n for n in names if any(f in n for f in flt)]
-with ThreadPoolExecutor(3) as ex:
+with ThreadPoolExecutor(int(os.environ.get("CONFIRM_JOBS", "3"))) as ex:
     for name, res in ex.map(one, names):
         print(name, "OK" if res.get("ok") else "PROBLEM", {k: v for k, v in res.items() if k != "ok"} if not res.get("ok") else "")
 subprocess.call(["git", "-C", "/repo", "worktree", "prune"])
